@@ -304,9 +304,9 @@ func famClass(f, malformed string) string {
 
 // recording wrapper around the real LRU
 type recCache struct {
-	inner                 cache.Cache
-	hits, misses, puts    int
-	wrongKey              int
+	inner              cache.Cache
+	hits, misses, puts int
+	wrongKey           int
 }
 
 func (c *recCache) Get(k *curve.CompressedEdwardsY) *ed25519.ExpandedPublicKey {
